@@ -117,6 +117,7 @@ TRAITS = {
     "FE56": dict(fis=0, chi=0, nalph=1, np=1, n2n=0, nd=0, nt=0, ltot=2, ltrn=2, ords=[1, 0, 1, 0], amass=55.9375, efiss=0.0, ecapt=1.25 * 2.0 ** -40),
     "NA23": dict(fis=0, chi=0, nalph=0, np=0, n2n=1, nd=1, nt=0, ltot=2, ltrn=2, ords=[1, 1, 0, 0], amass=22.984375, efiss=0.0, ecapt=1.125 * 2.0 ** -40),
     "DMP1": dict(fis=0, chi=0, nalph=0, np=0, n2n=0, nd=0, nt=1, ltot=2, ltrn=2, ords=[1, 0, 0, 0], amass=10.0, efiss=0.0, ecapt=0.0),
+    "BA38": dict(fis=0, chi=0, nalph=1, np=0, n2n=1, nd=0, nt=0, ltot=2, ltrn=2, ords=[1, 1, 1, 1], amass=137.90625, efiss=0.0, ecapt=1.375 * 2.0 ** -40),
 }
 SCAT_FLAGS = [100, 101, 200, 300]  # elastic P0, elastic P1, inelastic, n2n
 SCAT_ATTR = ["elasticScatter", "elasticScatter1stOrder", "inelasticScatter", "n2nScatter"]
@@ -177,6 +178,16 @@ MACRO_MEMBERS = {
     ],
 }
 PATTERN_LABELS = [n + "AA" for n in PATTERN_NUCS]
+# colliding XS IDs: a label is <nuclide label><XS ID> by plain concatenation, so XS IDs made of the letters of
+# nuclide labels held under ANOTHER XS ID of the same library ("NA" next to NA23AA, "FE" next to FE56AA, "BA"
+# next to BA38AB), XS IDs that are each other's reversal (AB/BA) and XS IDs sharing one character (AA/AB/BA/NA)
+COLLIDE_LABELS = ["U235AA", "NA23AA", "FE56AA", "U235NA", "FE56NA", "NA23FE", "U235FE", "U235BA", "FE56BA", "BA38AB", "NA23AB"]
+COLLIDE_SUFFIXES = ["AA", "NA", "FE", "BA", "AB"]
+LABEL_INDEX.update({lab: 40 + i for i, lab in enumerate(COLLIDE_LABELS) if lab not in LABEL_INDEX})
+MACRO_MEMBERS["col2"] = [
+    {"name": "c2iso", "kinds": ["ISOTXS"], "n": "A2", "labels": COLLIDE_LABELS},
+    {"name": "c2gam", "kinds": ["GAMISO"], "g": "A2", "labels": COLLIDE_LABELS},
+]
 MACRO_MEMBERS["pat2"] = [
     {"name": "p2iso", "kinds": ["ISOTXS"], "n": "A2", "labels": PATTERN_LABELS, "pattern": True},
     {"name": "p2gam", "kinds": ["GAMISO"], "g": "A2", "labels": PATTERN_LABELS, "pattern": True},
